@@ -121,7 +121,7 @@ def run(ctx):
     consts = {"MaxN": "3", "MaxPayN": "1" if ctx.quick else "2", "MaxRichN": "2" if ctx.quick else "3", "MaxOps": "2" if ctx.quick else "3"}
     cases_file, cases = p3.generate(ctx, "GraphSerde", consts)
     ctx.log(f"{len(cases)} cases")
-    results = [result_of(c, ctx.scratch) for c in cases]
+    cases, results = p3.execute(ctx, cases, cases_file, lambda c: result_of(c, ctx.scratch))
     rf = ctx.scratch / "c12_results.json"
     rf.write_text(json.dumps(results))
     bad = p3.judge(ctx, "GraphSerde", consts, cases_file, rf, env=judge_env(cases_file))
